@@ -76,7 +76,7 @@ func (s supportedOptions) validate() error {
 
 // New Bcrypt Authenticator
 func New(l loggerProvider, s getSecret) *Authenticator {
-	return &Authenticator{loggerProvider: l}
+	return &Authenticator{loggerProvider: l, getSecret: s}
 }
 
 // Authenticator with bcrypt password hashing used for validation
@@ -95,7 +95,7 @@ func (a Authenticator) New(username string, options map[string]string) (tq.Handl
 	if err := opts.validate(); err != nil {
 		return nil, err
 	}
-	return &Authenticator{loggerProvider: a.loggerProvider, username: username, supportedOptions: opts}, nil
+	return &Authenticator{loggerProvider: a.loggerProvider, username: username, supportedOptions: opts, getSecret: a.getSecret}, nil
 }
 
 // Handle handles all authenticate message types, scoped to the uid
